@@ -32,6 +32,8 @@ pub enum SOp {
     Sel(usize),
     // low-level safe API (C14)
     Get(usize),
+    /// `AtomicIter::get(i)` for the position delivered last (already yielded): must not deliver
+    GetPast,
     FetchOne,
     FetchN(usize),
     Progress(usize),
@@ -114,6 +116,7 @@ impl SOp {
             SOp::CloneCur => "CL".into(),
             SOp::Sel(j) => format!("SEL{j}"),
             SOp::Get(i) => format!("GET{}", num(i)),
+            SOp::GetPast => "GETP".into(),
             SOp::FetchOne => "F1".into(),
             SOp::FetchN(n) => format!("FN{}", size(n)),
             SOp::Progress(n) => format!("PR{}", num(n)),
@@ -138,6 +141,7 @@ impl SOp {
             "NI" => SOp::NewIter,
             "CL" => SOp::CloneCur,
             "F1" => SOp::FetchOne,
+            "GETP" => SOp::GetPast,
             "EE" => SOp::EarlyExit,
             "CI" => SOp::CtrInc,
             _ => {
